@@ -92,6 +92,9 @@ func mapRangeFindings(p *Prog, pkgs []string) []c06Finding {
 								default:
 									insens, why = false, "builtin "+bi.Name()
 								}
+							} else if g := calleeOf(&y.Call); g != nil && setAccumulating(p, g, map[*ssa.Function]bool{}) {
+								// the callee (and what it calls) only inserts into maps: a set union, whatever the order
+							} else if p.pureCall(&y.Call) {
 							} else {
 								insens, why = false, "calls "+calleeName(y)+" inside the loop"
 							}
@@ -686,4 +689,53 @@ func dropsAdjacentRepeats(p *Prog, g *ssa.Function) bool {
 		}
 	})
 	return n == 1 && ok
+}
+
+// setAccumulating: the only effects of g (and of the repository functions it calls, itself included) are
+// insertions into and deletions from maps — the result of running it over a collection does not depend on
+// the order of the collection.
+func setAccumulating(p *Prog, g *ssa.Function, seen map[*ssa.Function]bool) bool {
+	if seen[g] {
+		return true
+	}
+	seen[g] = true
+	if g.Pkg == nil || !InRepo(g.Pkg.Pkg.Path()) || len(g.Blocks) == 0 {
+		return false
+	}
+	if g.Signature.Results().Len() != 0 {
+		return false
+	}
+	ok := true
+	p.instrs(g, func(b *ssa.BasicBlock, i int, in ssa.Instruction) {
+		switch y := in.(type) {
+		case *ssa.Next, *ssa.Extract, *ssa.MapUpdate, *ssa.Lookup, *ssa.BinOp, *ssa.UnOp, *ssa.If, *ssa.Jump, *ssa.Phi, *ssa.DebugRef, *ssa.FieldAddr, *ssa.Field,
+			*ssa.Convert, *ssa.ChangeType, *ssa.IndexAddr, *ssa.MakeInterface, *ssa.Return, *ssa.Range, *ssa.Alloc, *ssa.MakeMap:
+			if u, isU := y.(*ssa.UnOp); isU && u.Op == token.ARROW {
+				ok = false
+			}
+		case *ssa.Store:
+			if !localAddr(y.Addr) {
+				ok = false
+			}
+		case *ssa.Call:
+			if bi, isB := y.Call.Value.(*ssa.Builtin); isB {
+				if bi.Name() != "len" && bi.Name() != "delete" {
+					ok = false
+				}
+				return
+			}
+			if h := calleeOf(&y.Call); h != nil && h.Pkg != nil && InRepo(h.Pkg.Pkg.Path()) {
+				if !setAccumulating(p, h, seen) {
+					ok = false
+				}
+				return
+			}
+			if !p.pureCall(&y.Call) {
+				ok = false
+			}
+		default:
+			ok = false
+		}
+	})
+	return ok
 }
